@@ -70,6 +70,9 @@ VerdictG(p, e, s) ==
               IN IF e.builderr # (latched \/ e.pzero \/ e.mzero) THEN V("builder-error-latch", latched, e.builderr)
                  ELSE IF e.keyerr # latched THEN V("builder-key-error", latched, e.keyerr)
                  ELSE IF ~e.builderr /\ e.n # Cardinality({e.added[k] : k \in 1..Len(e.added)}) THEN V("builder-deduplication", Cardinality({e.added[k] : k \in 1..Len(e.added)}), e.n)
+                 \* whatever happened on the way (intermediate Builds, parameters set again afterwards): the result is the
+                 \* filter of the builder's final key, P, M and entry set
+                 ELSE IF ~e.builderr /\ e.nbytes # e.direct THEN V("builder-filter-bytes", Cut(e.direct), Cut(e.nbytes))
                  ELSE OK
          [] OTHER -> V("unknown-op", e.op, e.op)
 
